@@ -28,7 +28,7 @@ STEP_KINDS = [
     "prop_flip_required", "prop_replace_element", "class_kw", "elements_assign", "set_default",
     "prop_replace_other_source",
 ]
-REQUIRED_COUNTERS = ["histories", "compare.calls", "compare.accepted", "compare.rejected", "triples",
+REQUIRED_COUNTERS = ["histories", "compare.calls", "compare.accepted", "compare.rejected", "triples", "compare.model_consulted",
                      "target.Object", "target.Element"] + [f"step.{k}" for k in STEP_KINDS]
 
 ANCHORS = [
@@ -321,12 +321,38 @@ def dangling(spec):
     return any(ref not in index for ref in refs)
 
 
+def model_disagrees_ok(ctx, schema, value, outcome, history, label):
+    """A fresh twin built in the same process shares any process-wide state with the live element, so
+    the current configuration is also judged absolutely: the Draft-6 model of the mirrored spec."""
+    from vlib import refmodel  # pylint: disable=import-outside-toplevel
+    from vlib import sut  # pylint: disable=import-outside-toplevel
+
+    try:
+        allowed = refmodel.verdicts(schema, value, schema, curated=gv.CURATED)
+    except Exception:  # pylint: disable=broad-except
+        return True
+    ctx.count("compare.model_consulted")
+    if sut.accepted(outcome) in allowed or outcome not in ("ok", "ValidationError", "TypeError"):
+        return True
+    ctx.witness("verdict_not_of_current_configuration",
+                {"spec0": history["spec0"], "steps": history["steps"], "value": value},
+                f"after {label}: live element (and a fresh twin) -> {outcome}, but the current configuration "
+                f"{str(schema)[:300]} means {sorted(allowed)}")
+    return False
+
+
 def compare(ctx, sut, fpm, live, spec, values, history, label):
     try:
         fresh = gen_dsl.build(spec)
     except Exception as exc:  # pylint: disable=broad-except
         ctx.count("fresh_build_failed." + type(exc).__name__)
         return False
+    try:
+        model_schema = gen_dsl.to_schema(spec)
+        if not isinstance(model_schema, dict):
+            model_schema = None
+    except Exception:  # pylint: disable=broad-except
+        model_schema = None
     ok = True
     for value in values:
         ctx.count("compare.calls")
@@ -340,6 +366,8 @@ def compare(ctx, sut, fpm, live, spec, values, history, label):
             ctx.witness("stale_verdict", {"spec0": history["spec0"], "steps": history["steps"], "value": value},
                         f"after {label}: live element -> {out_live} ({exc_live!r}), fresh element with the "
                         f"same configuration -> {out_fresh}"[:600])
+            ok = False
+        elif model_schema is not None and not model_disagrees_ok(ctx, model_schema, value, out_live, history, label):
             ok = False
         elif out_live == "ok" and fpm.fp_result(res_live) != fpm.fp_result(res_fresh):
             ctx.witness("stale_result", {"spec0": history["spec0"], "steps": history["steps"], "value": value},
